@@ -193,8 +193,9 @@ func (msg Message) Generate(w io.Writer, settings GenerateSettings) {
 	msg.generateEncodeBebop(ew, settings, fields)
 	msg.generateDecodeBebop(ew, settings, fields)
 	msg.generateSize(ew, settings, fields)
-	isEmpty := len(msg.Fields) == 0
-	writeWrappers(ew, msg.Name, isEmpty, settings)
+	// a message without fields still has a length prefix and a terminator on
+	// the wire, so its wrappers must not take the zero-byte shortcut structs use
+	writeWrappers(ew, msg.Name, false, settings)
 }
 
 func writeMessageFieldUnmarshaller(name string, typ FieldType, w *iohelp.ErrorWriter, settings GenerateSettings, depth int) {
